@@ -430,8 +430,16 @@ func Reference(t expr.DataType) {
 	}
 	switch def := eval.Current().(type) {
 	case *expr.ResultTypeExpr:
+		if inherits(t, def.AttributeExpr, make(map[expr.DataType]struct{})) {
+			eval.ReportError("type %s cannot reference itself (directly or through its base or reference types)", t.Name())
+			return
+		}
 		def.References = append(def.References, t)
 	case *expr.AttributeExpr:
+		if inherits(t, def, make(map[expr.DataType]struct{})) {
+			eval.ReportError("type %s cannot reference itself (directly or through its base or reference types)", t.Name())
+			return
+		}
 		def.References = append(def.References, t)
 	default:
 		eval.IncompatibleDSL()
@@ -470,12 +478,48 @@ func Extend(t expr.DataType) {
 	}
 	switch def := eval.Current().(type) {
 	case *expr.ResultTypeExpr:
+		if inherits(t, def.AttributeExpr, make(map[expr.DataType]struct{})) {
+			eval.ReportError("type %s cannot extend itself (directly or through its base or reference types)", t.Name())
+			return
+		}
 		def.Bases = append(def.Bases, t)
 	case *expr.AttributeExpr:
+		if inherits(t, def, make(map[expr.DataType]struct{})) {
+			eval.ReportError("type %s cannot extend itself (directly or through its base or reference types)", t.Name())
+			return
+		}
 		def.Bases = append(def.Bases, t)
 	default:
 		eval.IncompatibleDSL()
 	}
+}
+
+// inherits returns true if t is the user type defined by att or if it
+// inherits from it, directly or not, via Extend or Reference. Such a cycle
+// would make the attribute lookups recurse forever.
+func inherits(t expr.DataType, att *expr.AttributeExpr, seen map[expr.DataType]struct{}) bool {
+	ut, ok := t.(expr.UserType)
+	if !ok {
+		return false
+	}
+	if ut.Attribute() == att {
+		return true
+	}
+	if _, ok := seen[t]; ok {
+		return false
+	}
+	seen[t] = struct{}{}
+	for _, b := range ut.Attribute().Bases {
+		if inherits(b, att, seen) {
+			return true
+		}
+	}
+	for _, r := range ut.Attribute().References {
+		if inherits(r, att, seen) {
+			return true
+		}
+	}
+	return false
 }
 
 // Attributes implements the result type Attributes DSL. See ResultType.
